@@ -6,6 +6,7 @@ import pktcommon as PC
 KN = {}
 LENGTHS_AND_CHECKSUMS = {'checksum', 'tot_len', 'length', 'head_len', 'data_offset', 'payload_length', 'len', 'header_len', 'hlen', 'padding', 'bottom_of_stack'}
 # getters that alias the octet holding the RFC 4884 length (ICMP: byte 5, ICMPv6: byte 4); seen with VERIF_SEED=2 (hop_limit)
+RFC4884_TYPES = {'ICMP': {'3', '11', '12'}, 'ICMPv6': {'1', '3'}}
 ICMP_UNION = {'gateway', 'id', 'pointer', 'mtu', 'sequence', 'identifier', 'reachable_time', 'hop_limit', 'maximum_response_code', 'override', 'solicited', 'router'}
 TAGS = {'eth_type', 'protocol', 'payload_type', 'next_header', 'family', 'type'}
 # getters that expose a cache libtins fills while serialising (derived from the option list): not part of the view
@@ -68,8 +69,10 @@ def judge(lines, lh):
             for k in fa:
                 if fa[k] == fb.get(k) or (cls, k) in DERIVED_CACHES or k in LENGTHS_AND_CHECKSUMS:
                     continue
-                if cls in ('ICMP', 'ICMPv6') and k in ICMP_UNION and fa.get('length') != fb.get('length'):
-                    continue          # these getters alias the RFC 4884 length octet, which libtins derives
+                if cls in ('ICMP', 'ICMPv6') and k in ICMP_UNION and fa.get('length') != fb.get('length') and \
+                        fa.get('type') in RFC4884_TYPES[cls]:
+                    continue          # these getters alias the RFC 4884 length octet, which libtins derives (only in the message
+                                      # types for which RFC 4884 defines it; seeded mutation C03/m2 showed the tolerance was too wide)
                 if k in TAGS and nxt != 'RawPDU':
                     continue          # tag followed by a recognised layer (or by nothing): libtins may derive it
                 bad.append('%s.%s = %s in the parsed packet but %s after serialize()%s' % (cls, k, fa[k][:40], fb.get(k, '')[:40],
@@ -113,6 +116,16 @@ def run(ctx):
     for j in range(1500 if quick else 30000):
         e, b = hv[rng.randrange(len(hv))]
         scripts.append(('hm%d' % j, ['parse %s x%s' % (e, PC.mutate(rng, b).hex()), 'ser', 'view', 'rt ' + e]))
+    # every ICMP / ICMPv6 message type with a non-zero second header word, in front of payloads around the 128-byte mark
+    # (RFC 4884 length handling must leave the other message types' fields alone)
+    k = 0
+    for ent, types in (('ICMP', list(range(0, 20)) + [30, 40, 41, 42, 43, 255]), ('ICMPv6', [1, 2, 3, 4, 100, 127] + list(range(128, 162)) + [200, 255])):
+        for t in types:
+            for plen in (0, 8, 64, 128, 129, 136, 200):
+                word = bytes(rng.randrange(1, 256) for _ in range(4))
+                b = bytes([t, 0, 0, 0]) + word + bytes(rng.randrange(256) for _ in range(plen))
+                scripts.append(('ic%d' % k, ['parse %s x%s' % (ent, b.hex()), 'ser', 'view', 'rt ' + ent]))
+                k += 1
     pairs = [c for c in corp if len(c[2].get('stack', [])) == 2 and not c[2].get('fields')]
     for j, (ecls, y, meta, _) in enumerate(pairs):
         scripts.append(('pp%d' % j, ['parse %s x%s' % (ecls, y.hex()), 'ser', 'view', 'rt ' + ecls]))
